@@ -3,6 +3,7 @@ from pyvc.run import Prop
 from pyvc.contracts import REGISTRY
 import contracts  # noqa
 from contracts.frames import FRAMES, PERSIST, write_sites, publication
+from contracts.dt_sort import REV, SORT
 from native import c17 as native_c17
 
 INT_PARAM = 'DocumentTemplate.DT_In.int_param'
@@ -21,8 +22,10 @@ def _bounded(tier):
 PROP = Prop(
     'C17',
     contracts=[REGISTRY[k] for k in FRAMES + PERSIST] + [REGISTRY[INT_PARAM], REGISTRY[INITVARS],
-                                                          REGISTRY['DocumentTemplate.DT_String.String.cook#C01']],
-    claims=['*::frame.*', '*::C17.*', '*::C01.cook.*', 'frame.write.*', 'frame.publish.cook_is_one_locked_region', '*initvars::C02.*', INT_PARAM + '::frame.*'],
+                                                          REGISTRY['DocumentTemplate.DT_String.String.cook#C01']]
+    # the sequence handed to dtml-in belongs to the caller (or to the template's defaults): sorting and reversing work on copies
+    + [REGISTRY[k] for k in SORT + REV],
+    claims=['*::C13.*input_not_modified', '*::frame.*', '*::C17.*', '*::C01.cook.*', 'frame.write.*', 'frame.publish.cook_is_one_locked_region', '*initvars::C02.*', INT_PARAM + '::frame.*'],
     structural=[write_sites, publication],
     native_default=native_c17.native_for,
     bounded=[_bounded],
